@@ -1,5 +1,6 @@
 """C15 - malformed or foreign JSON is rejected, never loaded as a corrupted aggregator (mutation fuzzing)."""
 
+import copy
 import json
 
 from hypothesis import strategies as st
@@ -21,8 +22,9 @@ RULE = (
     "SparselyBin); retype a required value to an unambiguously wrong JSON type; rename a type tag to an unregistered "
     "name; replace a list element of bins / values / data by a malformed one; a non-integer SparselyBin key; a negative "
     "entries; a version newer in major and minor; a missing / retyped header field.  The document is passed as a dict "
-    "or as a JSON string.  Oracle: the mutated document raises (any Exception); the unmutated one loads and "
-    "re-serialises identically.  Not asserted (ambiguous by the code's documented conventions): JSON booleans where a "
+    "or as a JSON string.  Oracle: the mutated document raises (any Exception) each of the three times it is offered "
+    "(twice by the generated route, once by the other: rejection must not depend on what the loader saw before); the "
+    "unmutated one loads and re-serialises identically.  Not asserted (ambiguous by the code's documented conventions): JSON booleans where a "
     "number is expected, extra keys in the three-key header, version strings version.compatible accepts, and the "
     "strings nan/inf/-inf in numeric fields.  Non-trivial: the mutation position is at depth >= 1 (inside a nested "
     "fragment or list item); distinct by sha1 of (case, mutation)."
@@ -62,17 +64,25 @@ def check(case):
     field = arg[0] if op in ("set", "rename") else arg
     newval = type(arg[1]).__name__ if op == "set" else None
     sig = {"ftype": T, "op": op, "field": str(field) if not isinstance(field, int) else "@item", "new": newval}
-    accepted = None
-    try:
-        accepted = hg.Factory.fromJson(json.dumps(bad) if case["as_string"] else bad)
-    except Exception:  # noqa: BLE001  (any exception class is a rejection)
-        pass
-    if accepted is not None:
+    # the same malformed document is offered three times (twice by the generated route, once by the other one): a
+    # rejection must not depend on what the loader saw before, in particular not on having just rejected this document
+    for attempt, as_string in enumerate((case["as_string"], case["as_string"], not case["as_string"]), 1):
+        accepted = None
         try:
-            shown = json.dumps(accepted.toJson())[:300]
-        except Exception as e:  # noqa: BLE001
-            shown = f"<toJson raised {type(e).__name__}>"
-        require(False, "accepted-malformed", f"malformed document accepted ({jsonmut.describe(site)} in a {T} fragment); loaded as {shown}", sig)
+            accepted = hg.Factory.fromJson(json.dumps(bad) if as_string else copy.deepcopy(bad))
+        except Exception:  # noqa: BLE001, S110  (any exception class is a rejection)
+            pass
+        if accepted is not None:
+            try:
+                shown = json.dumps(accepted.toJson())[:300]
+            except Exception as e:  # noqa: BLE001
+                shown = f"<toJson raised {type(e).__name__}>"
+            require(
+                False,
+                "accepted-malformed",
+                f"malformed document accepted at attempt {attempt} ({'string' if as_string else 'dict'} route; {jsonmut.describe(site)} in a {T} fragment); loaded as {shown}",
+                dict(sig, attempt=attempt),
+            )
 
     depth = sum(1 for p in path if p in ("values", "bins", "data", "underflow", "overflow", "nanflow", "numerator", "denominator"))
     labels = ["ftype:" + T, "op:" + op] + ["kind:" + k for k in kinds(spec)]
